@@ -355,10 +355,42 @@ class HarnessA:
             return self.env.event(), None
         if tokname == "@none":
             return None, None
+        if tokname in ("@foreign:p", "@foreign:g"):
+            ev = self._foreign(tokname[-1])
+            if ev != "skip":
+                self._foreign_before = [(e, self._foreign_where(e)) for e in self.foreign_live]
+            return ev, None
+        if getattr(self, "ad2", None) is not None:
+            self._foreign_before = [(e, self._foreign_where(e)) for e in self.foreign_live]
         t = self.toks.get(tokname)
         if t is None or t.ev is None:
             return "skip", None
         return t.ev, t
+
+    def _foreign(self, kind):
+        """A live reservation of ANOTHER store / edge of the same class in the same environment: an unknown token for this one."""
+        if self.kind == "prs":
+            return "skip"
+        if getattr(self, "ad2", None) is None:
+            self.ad2 = adapters.make(self.env, self.kind, self.cfg)
+            self.foreign_live = []
+        ev = self.ad2.rp(0) if kind == "p" else self.ad2.rg(0, None)
+        self.foreign_live.append(ev)
+        self.probe("foreign_token_offered")
+        return ev
+
+    def _foreign_where(self, ev):
+        st = self.ad2.store
+        return tuple(n for n in ("reservations_put", "reservations_get", "reserve_put_queue", "reserve_get_queue")
+                     if any(x is ev for x in getattr(st, n, ())))
+
+    def check_foreign(self, before):
+        """The rejected call must leave the other store's reservation where it was."""
+        for ev, w in before:
+            now = self._foreign_where(ev)
+            if now != w:
+                self.violate("C07", "foreign-reservation-disturbed", f"a call on this store with a token of another store changed that other store: "
+                             f"its reservation was in {list(w)} and is now in {list(now)}", feat=(), stop=True)
 
     def snapshot(self, res):
         st = tuple(sorted((n, t.state, bool(t.ev is not None and t.ev.triggered)) for n, t in self.toks.items()))
@@ -477,6 +509,8 @@ class HarnessA:
         if not isinstance(exc, RuntimeError):
             self.violate("C07", f"{what}-wrong-exception:{type(exc).__name__}", f"ill-formed {what} raised {exc!r}, not RuntimeError",
                          feat=(), stop=True)
+        if getattr(self, "ad2", None) is not None:
+            self.check_foreign(self._foreign_before)
         self.misuse_ok.append(self.opi)
         return "rejected"
 
